@@ -149,7 +149,9 @@ CHECKS["C04"] = dict(
     "start-up fault (event-log equality); a native probe repeats them on the real backends (F54). M1LU (timeouts at lock-boundary "
     "granularity, ordered and unordered): timeout_raises, timeout_registers, timeout_stored, timeout_registered_raises_ordered / "
     "_unordered, timeout_only_when_waited (a TimeoutError implies a wait of more than `timeout` ticks on one pending tracker), "
-    "timeout_branch_guarded, error_jobs_hold_exceptions.",
+    "timeout_branch_guarded, error_jobs_hold_exceptions. Native pool probe (harness/native_pool.py, oracle only): inside a with block, "
+    "after a task error / timeout / iterator error / abandoned generator the re-built workers report the same configuration as before "
+    "(initializer, start method, thread limits, idle time-out, temp folder, memmapping) on multiprocessing, loky (F56) and threading.",
     note="M1 granularity: completion callbacks are atomic and delivered at hook points of the caller (configure, compute_batch_size, sleep, consumer pauses) - exactly the schedules harness/ctl.py executes on the real Parallel on one thread (event-log equality). Interleavings at lock-boundary / backend-call / unlocked-shared-access granularity with any number of concurrent callback threads are covered by PROOF on the second model M1L (lean/JoblibModel/ParallelLock.lean, theorems M1L.*; scope: one call on a fresh object, ordered modes, no timeout) and tied to the code by step-log equality of forced real-thread schedules (instrumented lock, controllable backend, descriptor-instrumented shared attributes; no line numbers). What remains exploration judged by oracles only is finer than a single attribute access (bytecode level: instr_sweep), mid-callback observations of the wait predicate, close during a callback's pull, native threading/multiprocessing runs, and at M1L granularity: item-level conservation and termination for generator_unordered / timeouts - M1LU (lean/JoblibModel/ParallelLockU.lean, theorems M1LU.*) proves for all interleavings delivery in completion-registration order, once per tracker, timeout soundness and error surfacing, the rest is checked by the tie's oracles; completions delivered INSIDE backend.submit are an oracle-only scenario kind (call sequences with surviving callback threads of earlier calls are covered by PROOF on M1L-Seq, theorems M1LSeq.*: stale_steps_are_noops, current_call_refines_M1L, next_call_is_fresh, return_correct_seq, error_surfaces_seq; tied by step-log equality of forced multi-call schedules); termination is proved for the drain schedule (completions, then callbacks, then the caller; quiescent_termination with an explicit bound), not for arbitrary fair schedules. Modelled not verified: backend contract (each batch executed at most once, callback at most once), RLock, islice, Queue/deque, pickling to workers." + " Worker-side traceback capture is covered by native runs only.",
     technique="Lean 4 proof (invariants + clean-state re-establishment) + event-log correspondence under a deterministic scheduler",
     ref="6/C04, 13.2",
@@ -167,7 +169,11 @@ CHECKS["C09"] = dict(
     "eval_sound (integer fragment, floor semantics), resolve_amount_fixed, lookahead_bound_user / _default (the bound as a function of "
     "the user's pre_dispatch text, n_jobs and the batch size), resolve_numbers, resolve_zero_negative_witnesses; tied by exact-value "
     "correspondence on generated and malformed expressions (call-event oracle: nothing but eval_, isinstance and the operator "
-    "functions runs) and end to end through Parallel on the controllable backend.",
+    "functions runs) and end to end through Parallel on the controllable backend. PER-CALL CONFIGURATION (ParallelReconf.lean: n_jobs, "
+    "batch_size, pre_dispatch, timeout reassigned between calls of one object): reconf_call_uses_its_own_cfg, "
+    "reconf_same_cfg_is_old_model; every call is judged with its own configuration. A native probe on the real pools "
+    "(harness/native_pool.py): after a failure that does not come from the task body (unpicklable result or argument, worker death) "
+    "no further items are taken and an error surfaces.",
     note="M1 granularity: completion callbacks are atomic and delivered at hook points of the caller (configure, compute_batch_size, sleep, consumer pauses) - exactly the schedules harness/ctl.py executes on the real Parallel on one thread (event-log equality). Interleavings at lock-boundary / backend-call / unlocked-shared-access granularity with any number of concurrent callback threads are covered by PROOF on the second model M1L (lean/JoblibModel/ParallelLock.lean, theorems M1L.*; scope: one call on a fresh object, ordered modes, no timeout) and tied to the code by step-log equality of forced real-thread schedules (instrumented lock, controllable backend, descriptor-instrumented shared attributes; no line numbers). What remains exploration judged by oracles only is finer than a single attribute access (bytecode level: instr_sweep), mid-callback observations of the wait predicate, close during a callback's pull, native threading/multiprocessing runs, and at M1L granularity: item-level conservation and termination for generator_unordered / timeouts - M1LU (lean/JoblibModel/ParallelLockU.lean, theorems M1LU.*) proves for all interleavings delivery in completion-registration order, once per tracker, timeout soundness and error surfacing, the rest is checked by the tie's oracles; completions delivered INSIDE backend.submit are an oracle-only scenario kind (call sequences with surviving callback threads of earlier calls are covered by PROOF on M1L-Seq, theorems M1LSeq.*: stale_steps_are_noops, current_call_refines_M1L, next_call_is_fresh, return_correct_seq, error_surfaces_seq; tied by step-log equality of forced multi-call schedules); termination is proved for the drain schedule (completions, then callbacks, then the caller; quiescent_termination with an explicit bound), not for arbitrary fair schedules. Modelled not verified: backend contract (each batch executed at most once, callback at most once), RLock, islice, Queue/deque, pickling to workers." + " The unrestricted look-ahead bound is false of the code (F18, known finding); F29 known.",
     technique="Lean 4 proof (size invariants of the transition system) + event-log correspondence + re-entrancy probe",
     ref="6/C09, 13.2",
@@ -189,7 +195,10 @@ CHECKS["C13"] = dict(
     text="zfile_refines_stream(_chunks): for every chunking of the payload and every operation sequence (read n, read(), readinto, "
     "readline, tell, seek with all whence modes) BinaryZlibFile's read-side state machine returns what the reference byte stream "
     "returns; invariant_preserved, size_known_at_eof, write_concat, write_roundtrip; model-based operation sequences on the real "
-    "BinaryZlibFile/BinaryGzipFile fed with the actual decompressed chunk boundaries, oracle io.BytesIO.",
+    "BinaryZlibFile/BinaryGzipFile fed with the actual decompressed chunk boundaries, oracle io.BytesIO. trailing_bytes_same_stream (a "
+    "valid file followed by ANY bytes answers every operation sequence as the reference stream over the payload), "
+    "seek_end_in_every_state; payloads up to megabytes in every inflation regime (ratio << 1 ... >> 1000 at the start, middle and END), "
+    "files with trailing bytes, seek from the end in every state of the object.",
     note="modelled not verified: zlib/gzip codecs (streaming law is a hypothesis), io.BufferedIOBase.readline/readinto defaults.",
     technique="Lean 4 proof (refinement to a byte-stream spec by induction over the operation list) + model-based differential testing",
     ref="6/C13",
@@ -327,7 +336,11 @@ CHECKS["C19"] = dict(
     "total_buffer_len_covers (all stride vectors incl. negative and non-multiple strides, after the F24-F26 repairs) over the "
     "ArrayFormat model of NumpyArrayWrapper and _reduce_memmap_backed; pre-fix witnesses kept; under python3-vt (numpy) arrays from a "
     "dtype x shape x layout generator are dumped by the real code, the file layout is parsed and compared with the model, loaded and "
-    "memory-mapped arrays and arrays seen by loky/multiprocessing workers are compared bit for bit.",
+    "memory-mapped arrays and arrays seen by loky/multiprocessing workers are compared bit for bit. WORKER PATH over call histories "
+    "(identity-keyed temporary dumps: Dispatch / runHistory): history_faithful_partial, fresh_context_is_faithful, "
+    "new_object_is_faithful, history_stale_counterexample (= F57, known), mmap_mode_none_disables_memmapping (F58, fixed); the "
+    "documented mmap_mode x max_nbytes grid, the lagging-tracker schedule (F60, known), concurrent loads / dumps in threads parked at "
+    "every read / write, file-object loads after the path changed (the last three oracle only).",
     note="numpy semantics (nditer order, tobytes, frombuffer, memmap, as_strided) are parameters of the model; runs on CPython 3.11 + "
     "numpy 2.4.6, not the pinned 3.12 (no numpy there); dtype identical up to byte order when ensure_native_byte_order is in effect; "
     "F16 (np.matrix under numpy 2) and F27 (itemsize-0 dtypes) are known findings.",
